@@ -135,6 +135,14 @@ impl<'a> Choices<'a> {
             ((raw << sh) as i64) >> sh
         }
     }
+    /// A signed value next to a size step of signed LEB128: +-2^(7k-1) and its neighbours, k = 1..=9, or i64::MIN/MAX.
+    pub fn sleb_edge(&mut self) -> i64 {
+        let k = 1 + self.below(9) as u32;
+        let p: i128 = 1i128 << (7 * k - 1);
+        let d = self.below(3) as i128 - 1;
+        let v = if self.bool() { -p + d } else { p + d };
+        v.clamp(i64::MIN as i128, i64::MAX as i128) as i64
+    }
     /// Small count in 0..=max, biased towards small
     pub fn count(&mut self, max: usize) -> usize {
         let b = self.u8() as usize;
